@@ -497,6 +497,9 @@ func (k *checker) runFiles(base int) bool {
 	if c.Mine(base + 100001) {
 		k.afterFailedRead()
 	}
+	if c.Mine(base + 100002) {
+		k.loadAfterReplace()
+	}
 	c.Bound("a.files", "every sequence of 1..3 obj.Save calls over a menu of three meshes (6, 2, 1 triangles) to one path, then obj.Load")
 	return !stop
 }
@@ -565,4 +568,35 @@ func (k *checker) afterFailedRead() {
 		}
 	}
 	k.c.Eval("files/after-failed-read", "ok")
+}
+
+// a load after the file was replaced (core.LoadAfterReplace): obj.Load of a path whose file was
+// replaced in place by another text (two of the six have the same size), modification time put back.
+func (k *checker) loadAfterReplace() {
+	files := [][]byte{
+		[]byte("v 0 0 0\nv 1 0 0\nv 0 1 0\nf 1 2 3\n"),
+		[]byte("v 0 0 0\nv 2 0 0\nv 0 3 0\nf 1 2 3\n"),
+		[]byte("v 0 0 0\nv 1 0 0\nv 0 1 0\nv 0 0 1\ng a\nf 1 2 3\ng b\nf 1 3 4\n"),
+		[]byte("v 0 0 0\nv 1 0 0\nv 0 1 0\nvt 0 0\nvt 1 0\nvt 0 1\nvn 0 0 1\ng z\nf 1/1/1 2/2/1 3/3/1\n"),
+		[]byte("v 5 5 5\nv 6 5 5\nv 5 6 5\nvt 0 0\nvt 1 0\nvt 0 1\nvn 0 1 0\ng z\nf 1/1/1 2/2/1 3/3/1\n"),
+		[]byte("# nothing\n"),
+	}
+	k.c.Nontrivial("load-after-replace")
+	why := core.LoadAfterReplace(".obj", files, func(path string) (string, error) {
+		ms, err := obj.Load(path)
+		if err != nil {
+			return "", err
+		}
+		var sb strings.Builder
+		for _, m := range ms {
+			fmt.Fprintf(&sb, "%q:%x;", m.Name, meshlib.QuickHash(m.Mesh))
+		}
+		return sb.String(), nil
+	})
+	if why != "" {
+		k.c.Eval("files/load-after-replace", "mismatch")
+		k.fail("obj.Load", "loading a path yields the meshes of the text it holds now", "load-after-replace", why, Case{Kind: "load-after-replace"})
+		return
+	}
+	k.c.Eval("files/load-after-replace", "ok")
 }
